@@ -182,9 +182,12 @@ E2E_CFG = dict(prop="C16", monitors=(), regions=[], key_depth=False,
                geo={})
 
 
+DECIMALS = [12]
+
+
 def num(v):
-    """Plain decimal text of a float (never an exponent), 12 decimals."""
-    t = ("%.12f" % v).rstrip("0").rstrip(".")
+    """Plain decimal text of a float (never an exponent), DECIMALS[0] decimals."""
+    t = ("%.*f" % (DECIMALS[0], v)).rstrip("0").rstrip(".")
     return "0" if t in ("-0", "") else t
 
 
@@ -284,9 +287,15 @@ def _work(arg):
             for frac in (0.5, 0.31):
                 out["n"] += 1
                 out["multi"] += 1
+                # every other arc is written with three decimals only (slicer output): the end point is then up to
+                # 0.7 micrometres off the circle, which must not change the verdict
+                dec = 3 if (idx // (9 if quick else 4)) % 2 else 12
+                DECIMALS[0] = dec
                 msg = check_e2e(arc, frac)
+                DECIMALS[0] = 12
                 if msg and len(out["viol"]) < 3:
-                    out["viol"].append(dict(msg=msg, input=dict(kind="e2e", arc=list(arc), frac=frac), sig=msg[:30]))
+                    out["viol"].append(dict(msg=msg, input=dict(kind="e2e", arc=list(arc), frac=frac, decimals=dec),
+                                            sig=msg[:30]))
     return out
 
 
@@ -345,7 +354,11 @@ def replay_input(payload):
     if i["kind"] == "r":
         c = i["chord"]
         return check_r((tuple(c[0]), tuple(c[1]), c[2], c[3]))[0]
-    return check_e2e(tuple(i["arc"]), i["frac"])
+    DECIMALS[0] = i.get("decimals", 12)
+    try:
+        return check_e2e(tuple(i["arc"]), i["frac"])
+    finally:
+        DECIMALS[0] = 12
 
 
 from .. import findings as _findings
